@@ -113,6 +113,7 @@ type c09Case struct {
 	Index         int             `json:"index"`
 	Mode          string          `json:"mode"` // enum | random
 	Shape         string          `json:"shape"`
+	SiblingOf     int             `json:"sibling_of_blob_plus_1,omitempty"` // the last blob is a revision of this one: same size and chunk list, same bytes up to a chunk boundary
 	Threshold     int64           `json:"chunking_threshold"`
 	MaxStreams    int             `json:"max_streams"`
 	ReadTimeoutMs int             `json:"read_timeout_ms"`
@@ -368,11 +369,22 @@ func c09Gen(r *kit.Rand, idx int) *c09Case {
 	}
 	v1 := c09Version{Layers: append([]int(nil), v0.Layers...), Config: v0.Config}
 	repl := nb - 1
+	sibling := -1 // the layer of version 0 that the replacement is a revision of
 	if nb == 3 {
 		// only three blobs: the update swaps the order and replaces nothing but the config/last layer role
 		v1.Layers[0], v1.Layers[1] = v1.Layers[1], v1.Layers[0]
 	} else {
-		v1.Layers[r.Intn(len(v1.Layers))] = repl // replace one layer, keep (share) the others
+		pos := r.Intn(len(v1.Layers))
+		if r.Chance(1, 2) {
+			pos = 0 // the chunked layer
+		}
+		if old := v1.Layers[pos]; c.chunked(old) && r.Chance(2, 3) {
+			// the new layer is a revision of the one it replaces: same size, same bytes up to some point (a
+			// re-quantised tail, appended metadata): the registry lists identical chunks for the common part
+			sibling = old
+			c.Blobs[repl] = c09Blob{Size: c.Blobs[old].Size, data: append([]byte(nil), c.Blobs[old].data...)}
+		}
+		v1.Layers[pos] = repl // replace one layer, keep (share) the others
 	}
 	c.Versions = []c09Version{v0, v1}
 	if r.Chance(1, 12) {
@@ -393,6 +405,31 @@ func c09Gen(r *kit.Rand, idx int) *c09Case {
 			}
 			c.Plans[b] = p
 		}
+	}
+	if sibling >= 0 {
+		p := c.Plans[sibling]
+		if len(p.Lines) < 2 {
+			p = c09Plan{Kind: "tiling", Lines: c09Tiling(r, int64(c.Blobs[sibling].Size), r.Range(2, 6)), Flush: p.Flush}
+			c.Plans[sibling] = p
+		}
+		// same chunk boundaries; the revision differs from the first byte of one of the later chunks on
+		var starts []int64
+		for _, l := range p.Lines {
+			if l.S > 0 {
+				starts = append(starts, l.S)
+			}
+		}
+		cut := kit.Pick(r, starts)
+		b := &c.Blobs[repl]
+		for i := int(cut); i < len(b.data); i++ {
+			if b.data[i] ^= 0xff; b.data[i] == 0 {
+				b.data[i] = 0x5a
+			}
+		}
+		b.dig = blob.DigestFromBytes(b.data)
+		b.Digest = b.dig.String()
+		c.Plans[repl] = c09Plan{Kind: p.Kind, Lines: append([]c09Line(nil), p.Lines...), Flush: p.Flush}
+		c.SiblingOf = sibling + 1
 	}
 	order := func(st *c09Step) {
 		st.CancelAtStep = -1
@@ -509,6 +546,8 @@ func c09Gen(r *kit.Rand, idx int) *c09Case {
 		c.Steps = []c09Step{clean(0), faulty(1, r.Chance(1, 3)), clean(1)}
 		if r.Chance(1, 3) {
 			c.Steps = []c09Step{clean(0), clean(1), del(1), clean(0)}
+		} else if c.SiblingOf > 0 && r.Chance(1, 2) {
+			c.Steps = []c09Step{clean(0), clean(1), clean(0)}
 		}
 	case 7, 8:
 		c.Shape = "auto-retry"
@@ -1746,6 +1785,9 @@ func c09RunPullCase(t *testing.T, rep *kit.Report, c *c09Case, base string) {
 	}
 	rep.Count("cases_"+c.Mode, 1)
 	rep.Count("shape_"+c.Shape, 1)
+	if c.SiblingOf > 0 {
+		rep.Count("cases_with_a_revised_layer_sharing_leading_chunks", 1)
+	}
 	if c.Mode == "enum" {
 		// which part of the enumerated sub-space a violation falls in
 		cls := "cancel-step"
